@@ -541,9 +541,94 @@ def run_chunk_program(ch, prog):
             out.append(written_bytes(cur) if _is_lazy(cur) else None)
         elif op == "data_object":
             out.append(snap(cur.get_data_object() if _is_lazy(cur) else cur))
+        elif op == "reread":
+            out.append([[snap(v) for v in _fields(cur)] for _ in range(2)])
+        elif op == "replace_same":
+            fs = dataclasses.fields(cur)
+            f = fs[n % len(fs)]
+            cur = bnp.replace(cur, **{f.name: getattr(cur, f.name)})
         elif op == "back":
             cur = ch
     return out
+
+
+TEXTFNS = ["str_to_int", "str_to_float", "str_to_int_with_missing", "str_to_float_with_missing", "tolist", "eq", "lengths", "copy",
+           "as_dna", "split", "count"]
+
+
+def apply_textfn(col, name):
+    bnp = B()
+    from bionumpy.io import strops
+    if name in ("str_to_int", "str_to_float", "str_to_int_with_missing", "str_to_float_with_missing"):
+        return getattr(strops, name)(col)
+    if name == "tolist":
+        return col.tolist()
+    if name == "eq":
+        return col == "-5"
+    if name == "lengths":
+        return col.lengths
+    if name == "copy":
+        return col.copy()
+    if name == "as_dna":
+        return bnp.as_encoded_array(col, bnp.DNAEncoding)
+    if name == "split":
+        return strops.split(col.ravel(), sep=",")
+    return bnp.count_encoded(col.ravel())
+
+
+def _text_columns(ch):
+    from bionumpy.encoded_array import EncodedRaggedArray
+    out = []
+    for f in dataclasses.fields(ch):
+        try:
+            v = getattr(ch, f.name)
+        except Exception:
+            continue
+        if isinstance(v, EncodedRaggedArray):
+            out.append(v)
+    return out
+
+
+def chunk_column_fn(ch, j, sel, name):
+    """a text function applied to a text column straight from a lazily read chunk, or to a fresh row selection of it"""
+    cols = _text_columns(ch)
+    if not cols:
+        return None
+    col = cols[j % len(cols)]
+    n = len(col)
+    if sel == "slice" and n:
+        col = col[min(1, n - 1):4]
+    elif sel == "mask" and n:
+        col = col[_mask(n)]
+    elif sel == "ints" and n:
+        col = col[[n - 1, 0]]
+    try:
+        return snap(apply_textfn(col, name), result=True)
+    except Exception as e:      # a parse error is an outcome like any other: the chunk must still be unchanged
+        return ("raised", type(e).__name__)
+
+
+def replace_then_reread(ch, j, bump):
+    """bnp.replace(chunk, <one field>=...) then every OTHER field read twice on the new table and once more on the chunk"""
+    bnp = B()
+    fs = dataclasses.fields(ch)
+    f = fs[j % len(fs)]
+    val = getattr(ch, f.name)
+    if bump and isinstance(val, np.ndarray) and val.dtype.kind in "iu":
+        val = val + 1
+    new = bnp.replace(ch, **{f.name: val})
+    others = [g.name for g in fs if g.name != f.name]
+
+    def read(obj):
+        out = []
+        for name in others:
+            try:
+                out.append((name, snap(getattr(obj, name))))
+            except Exception as e:
+                out.append((name, ("raised", type(e).__name__)))
+        return out
+    r1, r2 = read(new), read(new)
+    return (r1, r2, read(ch), r1 == r2)
 
 
 def registry2(R):
@@ -700,6 +785,8 @@ def registry2(R):
     R["apply_variants"] = (lambda se, v: va.apply_variants(se, v), ["seqentries+snps"])
     R["count_mutation_types"] = (lambda v, s: snap(va.count_mutation_types(v, s), result=True), ["snps+flatseq"])
     # --- util
+    R["textfn(chunk column)"] = (lambda ch, j, sel, name: chunk_column_fn(ch, j, sel, name), ["chunk+col+fn"])
+    R["replace(chunk, field) then reread"] = (lambda ch, j, bump: replace_then_reread(ch, j, bump), ["chunk+field"])
     R["chunk.program"] = (lambda ch, prog: run_chunk_program(ch, prog), ["chunk+program"])
     R["gi.clip(out of bounds)"] = (lambda gi: snap(gi.clip()), ["gintervals_oob"])
     R["gi.extended_to_size(oob)"] = (lambda gi, n: snap(gi.extended_to_size(n)), ["gintervals_oob+len"])
@@ -833,7 +920,7 @@ def file_spec(rng, fmt=None):
         for c, a, b in rows:
             l = [c, str(a), str(b)]
             if kind != "bed3":
-                l += [_word(rng).replace(",", "") or "n", rng.choice(["0", "1000", "-5", "+7", "."]) if kind == "bed6" else rng.choice(["0", "960"]), rng.choice("+-.")]
+                l += [rng.choice([_word(rng).replace(",", "") or "n", "-12", "+4", "-0.5"]), rng.choice(["0", "1000", "-5", "+7", "."]) if kind == "bed6" else rng.choice(["0", "960"]), rng.choice("+-.")]
             if kind == "bed12":
                 k = rng.choice([1, 2, 3])
                 tc = rng.choice(["", ","])
@@ -873,7 +960,7 @@ def file_spec(rng, fmt=None):
         lines = []
         for c, a, b in rows:
             attr = 'gene_id "g1"; transcript_id "t1";' if fmt == "gtf" else "ID=g1;Name=x"
-            lines.append("\t".join([c, "src", rng.choice(["gene", "exon", "CDS"]), str(a + 1), str(b + 1), rng.choice([".", "5.5", "1e2"]), rng.choice("+-."),
+            lines.append("\t".join([c, "src", rng.choice(["gene", "exon", "CDS"]), str(a + 1), str(b + 1), rng.choice([".", "5.5", "1e2", "-5", "+3", "12", "-1.5e2", "-7"]), rng.choice("+-."),
                                     rng.choice([".", "0", "2"]), attr]))
         if fmt == "gff" and rng.random() < 0.5:
             lines.insert(rng.randrange(len(lines) + 1), "##comment")
@@ -1249,8 +1336,13 @@ def gen_args(kind, rng):
         return [{"k": "list", "items": [gen_args("codon_entries", rng)[0] for _ in range(rng.choice([1, 2, 3]))]}]
     if kind == "bam_chunks_list":
         return [{"k": "list", "items": [file_spec(rng, fmt="bam") for _ in range(rng.choice([1, 2]))]}]
+    if kind == "chunk+col+fn":
+        return [file_spec(rng), py(rng.randrange(6)), py(rng.choice(["none", "none", "slice", "mask", "ints"])), py(rng.choice(TEXTFNS))]
+    if kind == "chunk+field":
+        return [file_spec(rng), py(rng.randrange(12)), py(rng.random() < 0.5)]
     if kind == "chunk+program":
-        ops = ["fields", "first_field", "slice", "head", "mask", "ints", "concat_self", "replace", "write", "data_object", "back"]
+        ops = ["fields", "first_field", "slice", "head", "mask", "ints", "concat_self", "replace", "write", "data_object", "back",
+               "reread", "replace_same", "reread"]
         return [file_spec(rng), py([rng.choice(ops) for _ in range(rng.choice([2, 3, 4, 6]))])]
     if kind in ("gintervals_oob", "gintervals_oob+len"):
         n = rng.choice([1, 2, 3, 5])
@@ -1312,10 +1404,10 @@ def cases(tier, rng):
     per = 250 if big else 20
     for name, (fn, kinds) in R.items():
         for kind in kinds:
-            reps = per * (4 if kind in ("chunk", "chunks") else 8 if kind == "chunk+program" else 1)
+            reps = per * (4 if kind in ("chunk", "chunks") else 8 if kind in ("chunk+program", "chunk+col+fn", "chunk+field") else 1)
             for _ in range(reps):
                 yield {"op": "call", "fn": name, "gen": kind, "args": gen_args(kind, rng),
-                       "variant": rng.choice(["plain", "plain", "views", "views", "readonly", "empty"])}
+                       "variant": rng.choice(["plain", "plain", "views", "fresh:slice", "fresh:mask", "fresh:ints", "readonly", "empty"])}
     # routines that are also executed in the Lean heap model
     for _ in range(200 if big else 40):
         yield {"op": "m_str_to_int", "rows": [_int_str(rng) for _ in range(rng.choice([1, 2, 3, 6]))]}
@@ -1358,6 +1450,34 @@ def viewify(a):
         return view, base
     except Exception:
         return a, None
+
+
+def fresh_view(a, sel):
+    """(view, base): `a` as a FRESH, not yet materialised row selection (slice / boolean mask / integer list) of a larger
+    parent. Nothing is computed on the view here: the parent is snapshotted by the caller BEFORE the view exists and the
+    expected contents of the view are those of `a` itself (an independent object)."""
+    from bionumpy.encoded_array import EncodedArray, EncodedRaggedArray
+    from bionumpy.bnpdataclass import BNPDataClass
+    from npstructures import RaggedArray
+    if _is_lazy(a) or not isinstance(a, (np.ndarray, EncodedArray, EncodedRaggedArray, RaggedArray, BNPDataClass)):
+        return None
+    try:
+        n = len(a)
+        if n == 0 or (isinstance(a, (np.ndarray, EncodedArray)) and a.ndim == 0):
+            return None
+        base = np.concatenate([a[n - 1:], a, a[:1]])
+    except Exception:
+        return None
+
+    def make():
+        if sel == "slice":
+            return base[1:1 + n]
+        if sel == "mask":
+            m = np.zeros(n + 2, dtype=bool)
+            m[1:1 + n] = True
+            return base[m]
+        return base[list(range(1, 1 + n))]
+    return make, base
 
 
 def empty_spec(s):
@@ -1422,7 +1542,43 @@ def observe(fn, specs, views=False, variant=None):
 def _observe(fn, specs, views, variant):
     import contextlib
     with contextlib.redirect_stdout(open(os.devnull, "w")):
+        if variant and variant.startswith("fresh"):
+            return _observe_fresh(fn, specs, variant.split(":")[1] if ":" in variant else "slice")
         return _observe0(fn, specs, views, variant)
+
+
+def _observe_fresh(fn, specs, sel):
+    """arguments passed as fresh, unmaterialised row selections of a parent: nothing touches the selection before the call"""
+    try:
+        originals = [build(s) for s in specs]
+    except Exception as e:
+        return {"unbuildable": type(e).__name__}
+    expected = [digest(snap(a)) for a in originals]       # independent objects with the contents the selections must keep
+    made = [fresh_view(a, sel) for a in originals]
+    parent_before = [digest(snap(m[1])) if m else None for m in made]   # parents snapshotted BEFORE the selections exist
+    args = [m[0]() if m else a for m, a in zip(made, originals)]
+    res, mutated = [], set()
+    for rep in range(2):
+        try:
+            r = fn(*args)
+            res.append(("ok", digest(snap(r, result=True))))
+        except Unknown:
+            raise
+        except Exception as e:
+            res.append(("raised", type(e).__name__))
+        for i, m in enumerate(made):
+            if m and digest(snap(m[1])) != parent_before[i]:
+                mutated.add(f"arg{i}:parent-of-selection:call{rep + 1}")
+    for i, (a, e) in enumerate(zip(args, expected)):
+        try:
+            if digest(snap(a)) != e:
+                mutated.add(f"arg{i}:selection-contents")
+        except Exception:
+            mutated.add(f"arg{i}:selection-unreadable")
+    out = {"mutated": sorted(mutated), "twice_equal": res[0] == res[1]}
+    if res[0][0] == "raised":
+        out["raised"] = res[0][1]
+    return out
 
 
 def _observe0(fn, specs, views, variant):
@@ -1517,6 +1673,31 @@ def impl(c):
             return r
         o = observe(f, specs)
         return dict(mutated=o["mutated"], twice_equal=o["twice_equal"], value=val[0] if val else None)
+
+
+def live_cases(tier, rng):
+    R = registry()
+    names = [n for n in R if not n.startswith(("bnp.open(path)", "chunk.program"))]
+    for _ in range(3000 if tier in ("thorough", "widen") else 600):
+        name = rng.choice(names)
+        kind = rng.choice(R[name][1])
+        yield {"op": "call", "fn": name, "gen": kind, "args": gen_args(kind, rng), "variant": "plain"}
+
+
+def impl_live(c):
+    """history probe: the result of a call must read the same after a LATER, unrelated call (no shared output buffers)"""
+    import contextlib
+    fn = registry()[c["fn"]][0]
+    try:
+        with contextlib.redirect_stdout(open(os.devnull, "w")):
+            args = [build(s) for s in c["args"]]
+            r = fn(*args)
+    finally:
+        _cleanup_paths()
+
+    def canon_fn(r, keep=args):
+        return {"mutated": [], "twice_equal": True, "result": digest(snap(r, result=True))}
+    return r, canon_fn
 
 
 def _merge_ref(starts, stops, d):
